@@ -36,8 +36,9 @@ RawForest(p, n) ==
                 [tag |-> IF p[d] = 0 THEN "cu" ELSE IF Len(KidsOf(p, n, d)) > 0 THEN "ns" ELSE "var",
                  kids |-> KidsOf(p, n, d),
                  attrs |-> Menu[1 + ((d + n) % Len(Menu))],
-                 \* the last leaf claims to have children although it has none
-                 hc |-> Len(KidsOf(p, n, d)) > 0 \/ (d = n /\ n % 2 = 0)]]]
+                 \* some leaves claim to have children although they have none (an empty child list), also
+                 \* leaves that have following siblings
+                 hc |-> Len(KidsOf(p, n, d)) > 0 \/ (d = n /\ n % 2 = 0) \/ (p[d] # 0 /\ (d + n) % 3 = 0)]]]
 
 \* navigation family: roots are DIE 1 (compile unit) and possibly later ones (partial units); every leaf of
 \* tag "var" may instead be an import of a LATER unit (acyclic): imp[d] = 0 or a root id
@@ -123,8 +124,14 @@ CycRefChoices(n) ==
         /\ \A d \in 2..n : (g[d].spec = 0 \/ g[d].orig = 0) => g[d].first = "spec"
         /\ \E d \in 2..n : (g[d].spec # 0 /\ g[d].spec <= d) \/ (g[d].orig # 0 /\ g[d].orig <= d)}
 
+\* "chain": one long chain of alternating specification / abstract_origin references (N - 2 hops), the name at
+\* its end and a line number three quarters down: "chains of any length"
+ChainG(n) == [d \in 2..n |-> [spec |-> IF d < n /\ d % 2 = 0 THEN d + 1 ELSE 0, orig |-> IF d < n /\ d % 2 = 1 THEN d + 1 ELSE 0,
+                              first |-> "spec", m |-> IF d = n THEN 2 ELSE IF d = (3 * n) \div 4 THEN 3 ELSE 1]]
+
 ForestSet ==
-    CASE Family = "cyc" -> {AttrForest(N, g) : g \in CycRefChoices(N)}
+    CASE Family = "chain" -> {AttrForest(N, ChainG(N))}
+      [] Family = "cyc" -> {AttrForest(N, g) : g \in CycRefChoices(N)}
       [] Family = "altnav" -> UNION {{AltNavForest(p, N, f) : f \in ImpChoices(p, N)} : p \in {q \in ParVecs(N) : Cardinality(RangeOf(RootsOf(q, N))) \in 2..3}}
       [] Family = "altattr" -> UNION {{AltAttrForest(N, g, s) : g \in AltRefChoices(N, s)} : s \in 2..(N - 2)}
       [] Family = "raw" -> {RawForest(p, N) : p \in ParVecs(N)}
